@@ -84,6 +84,8 @@ type c20Input struct {
 	NUpkeep int `json:"n_upkeep,omitempty"`
 	NBlock  int `json:"n_block,omitempty"`
 	Reads   int `json:"reads,omitempty"`
+	// pipeline (chain side of the nodes: trackers + check pipeline)
+	Pipeline *c20PipelineIn `json:"pipeline,omitempty"`
 	// db (stress of the simulated databases): part "ocr3" | "upkeep"; nodes goroutines x rounds calls
 	Part  string    `json:"part,omitempty"`
 	Plan2 *c20Canon `json:"plan2,omitempty"`
@@ -924,6 +926,8 @@ func c20Run(t *testing.T, in c20Input, simExe string) any {
 		return c20RunCollector(in, simExe, in.Race)
 	case "db":
 		return c20RunDB(in, simExe, in.Race)
+	case "pipeline":
+		return c20RunPipelines([]c20PipelineIn{*in.Pipeline}, simExe, in.Race)[0]
 	case "transmit":
 		return c20RunTransmit(in, simExe, in.Race)
 	case "sim":
@@ -1080,6 +1084,38 @@ func TestC20(t *testing.T) {
 		ca, cb := c20PlanToCanon(a), c20PlanToCanon(b)
 		emit("gen", c20Input{Kind: "resave", Plan: &ca, Plan2: &cb}, self)
 	}
+	// the chain side of the nodes (trackers + check pipeline): all scenarios of the run in one child process
+	{
+		var pins []c20PipelineIn
+		pins = append(pins, c20PipelineEdge()...)
+		for i, n := 0, tierN(40, 400); i < n; i++ {
+			pins = append(pins, c20GenPipeline(r))
+		}
+		// chunks of scenarios, one child process (one bubble) per chunk, four at a time
+		impls := make([]c20PipelineImpl, len(pins))
+		const chunk = 25
+		var pwg sync.WaitGroup
+		psem := make(chan struct{}, 4)
+		for lo := 0; lo < len(pins); lo += chunk {
+			hi := lo + chunk
+			if hi > len(pins) {
+				hi = len(pins)
+			}
+			pwg.Add(1)
+			go func(lo, hi int) {
+				defer pwg.Done()
+				psem <- struct{}{}
+				defer func() { <-psem }()
+				copy(impls[lo:hi], c20RunPipelines(pins[lo:hi], self, false))
+			}(lo, hi)
+		}
+		pwg.Wait()
+		for i := range pins {
+			em.Hit("kind=pipeline")
+			pin := pins[i]
+			em.Emit("gen", c20Input{Kind: "pipeline", Pipeline: &pin}, impls[i])
+		}
+	}
 	// the transmit loader under concurrent Transmit calls (un-timed, child process)
 	stress := []c20Input{
 		{Kind: "transmit", Rounds: tierN(2500, 12000), K: 8, PerReport: 1},
@@ -1157,6 +1193,12 @@ func TestC20(t *testing.T) {
 			db.Race, db.Rounds = true, 2000
 			sims = append(sims, simCase{db, raceExe})
 		}
+	}
+	if raceExe != "" {
+		// the perform history of an often performed upkeep read by the nodes' check goroutines while performs arrive
+		many := c20PipelineEdge()[1]
+		many.ConcurrentChecks = true
+		sims = append(sims, simCase{c20Input{Kind: "pipeline", Pipeline: &many, Race: true}, raceExe})
 	}
 	if raceExe != "" {
 		// failing verdicts with several incomplete trackers, under the race detector
